@@ -381,3 +381,12 @@ spec("C16",
      assumptions=["rotation matrices come from nalgebra::Rotation3::new (passed to the model as data; compared with Rodrigues' formula by the oracle)",
                   "Blend is only checked where it must equal the union (radius 0 or shapes further apart than the radius)"],
      )
+
+spec("C19",
+     cmd="c19", count=dict(quick=300, thorough=4000),
+     vo_targets=["props/C19.vo"],
+     level="proof",
+     rule="consistent diagonally-dominant linear systems with n in {1..8,10,13,16,25,40} unknowns (half-integer solutions, integer coefficients, each equation over a different subset of the variables), every variable free / every variable fixed / a random 35% fixed at their true values, starts perturbed or exactly satisfied; interpreter and JIT; through the verif hook the Jacobian must equal the coefficient matrix exactly and the seed rows are compared with the Coq model's seed table; distinct_nontrivial = systems (each has fresh variables and random coefficients)",
+     classify=classify_backend,
+     assumptions=["convergence (residual <= 1e-3) is an observation on well-conditioned systems, not a theorem: the SVD / Levenberg-Marquardt core is abstract in the model"],
+     )
